@@ -46,13 +46,24 @@ def fixtures():
 
 
 class Replayer:
-    def __init__(self, fx, datadir):
+    def __init__(self, fx, datadir, loopback=False):
         self.fx = fx
-        self.world = fs.ServerWorld(REPO, datadir)
+        self.loopback = loopback
+        if loopback:
+            import fe_loop
+            self.world = fe_loop.LoopWorld(REPO, datadir)
+        else:
+            self.world = fs.ServerWorld(REPO, datadir)
         self.sid = hashlib.sha256(os.path.basename(datadir).encode()).hexdigest()
         self.ws = None
         self.ev = []
         self.nconn = 0
+
+    async def settle(self):
+        if self.loopback:
+            await self.world.settle()
+        else:
+            await fs.settle()
 
     def proj(self):
         p = self.world.project(self.sid, (self.fx["c1"], self.fx["c2"]), (self.fx["e1"], self.fx["e2"]))
@@ -61,7 +72,7 @@ class Replayer:
     async def connect(self):
         self.nconn += 1
         self.ws = self.world.open(self.sid, "c%d" % self.nconn)
-        await fs.settle()
+        await self.settle()
         msgs = fs.decode_server_msgs(self.ws.take_outbox())
         inits = [m for m in msgs if m["type"] == "init"]
         rep = inits[0]["state"] if len(inits) == 1 and inits[0].get("ok") and isinstance(inits[0].get("state"), int) else -1
@@ -75,9 +86,9 @@ class Replayer:
             await self.connect()
 
     async def drain_timers(self):
-        await fs.settle()
+        await self.settle()
         while self.world.proxy.fire():
-            await fs.settle()
+            await self.settle()
 
     def classify_replies(self, msgs, typ):
         rs = [m for m in msgs if m["type"] == typ]
@@ -103,31 +114,31 @@ class Replayer:
             import pickle
             c = 1 if sym == "cfg1" else 2
             self.ws.peer_send(fs.msg(sid, "config", pickle.dumps(fx["c%d" % c])))
-            await fs.settle()
+            await self.settle()
             out, _ = self.classify_replies(fs.decode_server_msgs(self.ws.take_outbox()), "config")
             self.ev.append({"e": "config", "c": c, "out": out, "d": self.proj()})
         elif sym in ("up1", "up2"):
             x = 1 if sym == "up1" else 2
             self.ws.peer_send(fs.msg(sid, "upload_edb", fx["e%d" % x]))
-            await fs.settle()
+            await self.settle()
             out, _ = self.classify_replies(fs.decode_server_msgs(self.ws.take_outbox()), "upload_edb")
             self.ev.append({"e": "upload", "x": x, "out": out, "d": self.proj()})
         elif sym == "search":
             dig = hashlib.sha256(fx["tok"]).digest()
             self.ws.peer_send(fs.msg(sid, "token", fx["tok"], token_digest=dig))
-            await fs.settle()
+            await self.settle()
             out, res = self.search_outcome(fs.decode_server_msgs(self.ws.take_outbox()), dig)
             self.ev.append({"e": "search", "out": out, "res": res, "d": self.proj()})
         elif sym == "foreign":
             import pickle
             self.ws.peer_send(fs.msg("f" * 64, "config", pickle.dumps(fx["c2"])))
-            await fs.settle()
+            await self.settle()
             msgs = [m for m in fs.decode_server_msgs(self.ws.take_outbox()) if m["type"] != "control"]
             out = self.no_reply() if not msgs else ("refused" if all(m.get("ok") is False for m in msgs) else "garbled")
             self.ev.append({"e": "foreign", "out": out, "d": self.proj()})
         elif sym == "unknown":
             self.ws.peer_send(fs.msg(sid, "delete", b""))
-            await fs.settle()
+            await self.settle()
             msgs = [m for m in fs.decode_server_msgs(self.ws.take_outbox()) if m["type"] != "control"]
             out = self.no_reply() if not msgs else ("refused" if all(m.get("ok") is False for m in msgs) else "garbled")
             self.ev.append({"e": "unknown", "out": out, "d": self.proj()})
@@ -138,11 +149,11 @@ class Replayer:
             await self.connect()
         elif sym == "reconnE":      # close and re-open at once: the new connection opens while the cleanup is pending
             self.ws.peer_close()
-            await fs.settle()
+            await self.settle()
             self.ev.append({"e": "close", "d": self.proj()})
             self.nconn += 1
             self.ws = self.world.open(self.sid, "c%d" % self.nconn)
-            await fs.settle()
+            await self.settle()
             await self.drain_timers()
             msgs = fs.decode_server_msgs(self.ws.take_outbox())
             inits = [m for m in msgs if m["type"] == "init"]
@@ -179,13 +190,18 @@ class Replayer:
             self.ws.peer_close()
         await self.drain_timers()
         await self.world.kill()
-        self.world.restart()
+        if self.loopback:
+            await self.world.restart_async()
+        else:
+            self.world.restart()
         self.ev.append({"e": "restart", "d": self.proj()})
         await self.connect()
         if self.ev[-1]["rep"] == 2:
             await self.request("search")
 
     async def run(self, hist):
+        if self.loopback:
+            await self.world.start()
         for s in hist:
             await self.request(s)
         await self.probe()
@@ -193,9 +209,9 @@ class Replayer:
         return self.ev
 
 
-def replay(fx, hist, k):
-    d = os.path.join(subdir("c10-data"), "h%d" % k)
-    rp = Replayer(fx, d)
+def replay(fx, hist, k, loopback=False):
+    d = os.path.join(subdir("c10-data"), "%s%d" % ("L" if loopback else "h", k))
+    rp = Replayer(fx, d, loopback)
     loop = asyncio.new_event_loop()
     loop.set_exception_handler(lambda l, c: None)
     try:
@@ -241,6 +257,19 @@ def main(argv_tier=None, replay_path=None):
     traces = [{"tid": "h%d" % k, "ev": ev, "history": list(h)} for (k, h), ev in zip(enumerate(hists), evs)]
     verdicts, agg = validate_traces("Trace_ServerSM", [{"tid": t["tid"], "ev": t["ev"]} for t in traces],
                                     consts="CONSTANTS Cfgs = {1,2}\nIdxs = {1,2}\n")
+    # ---- is the fake websocket a faithful stand-in?  the same histories over real loopback sockets
+    nloop = 16 if tr == "quick" else 200
+    sample = random.Random(seed() + 77).sample(range(len(traces)), min(nloop, len(traces)))
+    lev = pmap(lambda k: replay(fx, traces[k]["history"], k, loopback=True), sample, nproc=8)
+    mism = [{"history": traces[k]["history"], "fake": traces[k]["ev"], "loopback": ev} for k, ev in zip(sample, lev) if ev != traces[k]["ev"]]
+    for m in mism[:5]:
+        print("FIDELITY-NOTE property=C10 fake websocket and loopback socket disagree on history %s" % ",".join(m["history"]))
+    lverd, _ = validate_traces("Trace_ServerSM", [{"tid": "L%d" % k, "ev": ev} for k, ev in zip(sample, lev)],
+                               consts="CONSTANTS Cfgs = {1,2}\nIdxs = {1,2}\n", name="loop")
+    for k, ev in zip(sample, lev):
+        if not lverd["L%d" % k]["ok"]:
+            traces.append({"tid": "L%d" % k, "ev": ev, "history": traces[k]["history"]})
+            verdicts["L%d" % k] = lverd["L%d" % k]
     rej = []
     for t in traces:
         v = verdicts[t["tid"]]
@@ -267,6 +296,7 @@ def main(argv_tier=None, replay_path=None):
         "rule": "every history over the 9-symbol alphabet up to depth %d as emitted by TLC from MC_ServerSM, plus %d random "
                 "histories of length %d..12; non-trivial = at least one accepted request" % (D, nrand, D + 1),
         "exhaustive": True,
+        "loopback_histories": len(sample), "loopback_disagreements": len(mism), "loopback_disagreement_samples": mism[:3],
         "samples": [{"history": t["history"], "events": t["ev"]} for t in traces[len(traces) // 3:len(traces) // 3 + 2]],
         "model": "spec/fe/ServerSM.tla via MC_ServerSM (D=%d); trace spec Trace_ServerSM" % D,
     }
